@@ -110,7 +110,33 @@ const (
 	// 1:1 (the initial value of the failure position) instead of the
 	// line:col of offset 0, which differ when the input starts with a newline.
 	QMaxFailOrigin = "maxfail-origin"
+	// QLitFFFDEOF: a literal rune U+FFFD "matches" the end of input
+	// (consuming nothing), because the runtime's current rune is U+FFFD at
+	// EOF and parseLitMatcher has no EOF test.
+	QLitFFFDEOF = "lit-fffd-eof"
+	// QClassUnicodeLower: in a case-insensitive class a Unicode class item is
+	// tested against the lower-cased input rune only, so [\p{Lu}]i matches
+	// no letter at all.
+	QClassUnicodeLower = "class-unicode-lower"
+	// QMemo models the runtime's packrat table keyed by (expression node,
+	// offset): a hit returns the cached (ok, end, value) without running
+	// blocks and without re-binding a label in the current scope.
+	QMemo = "memo-model"
+	// QMemoRebind: like QMemo but a hit on a labelled expression re-binds
+	// the label (used to tell D13 from D8).
+	QMemoRebind = "memo-model-rebind"
 )
+
+type memoKey struct {
+	e   *Expr
+	pos int
+}
+
+type memoVal struct {
+	ok  bool
+	end int
+	val any
+}
 
 type store struct {
 	hasS, hasL bool
@@ -209,6 +235,8 @@ type Interp struct {
 	reentry  string
 	curText  string // what c.text / c.pos hold in the implementation (QPredStale)
 	curPos   [3]int
+	memo     map[memoKey]memoVal
+	ruleMemo map[string]memoVal
 }
 
 func (ip *Interp) ruleName() string {
@@ -371,6 +399,15 @@ func (ip *Interp) record(matched bool, off int, want string) {
 
 func (ip *Interp) evalRule(r *Rule, pos int) (bool, int, any) {
 	key := r.Name + "@" + strconv.Itoa(pos)
+	useMemo := ip.O.Quirks[QMemo] || ip.O.Quirks[QMemoRebind]
+	if useMemo {
+		if ip.ruleMemo == nil {
+			ip.ruleMemo = map[string]memoVal{}
+		}
+		if m, ok := ip.ruleMemo[key]; ok {
+			return m.ok, m.end, m.val
+		}
+	}
 	if ip.active[key] {
 		if ip.reentry == "" {
 			ip.reentry = key
@@ -382,6 +419,9 @@ func (ip *Interp) evalRule(r *Rule, pos int) (bool, int, any) {
 	ok, end, val := ip.eval(r.Expr, pos, map[string]any{})
 	ip.rstack = ip.rstack[:len(ip.rstack)-1]
 	delete(ip.active, key)
+	if useMemo {
+		ip.ruleMemo[key] = memoVal{ok, end, val}
+	}
 	return ok, end, val
 }
 
@@ -390,15 +430,29 @@ func foldEq(a, b rune) bool {
 }
 
 // ClassMatch is the reference class semantics.
-func ClassMatch(c *Class, r rune) bool {
+func ClassMatch(c *Class, r rune) bool { return classMatch(c, r, false) }
+
+// classMatch: lowerOnly models QClassUnicodeLower.
+func classMatch(c *Class, r rune, lowerOnly bool) bool {
 	in := false
 	for _, it := range c.Items {
 		if it.Unicode != "" {
-			if rt := unicodeTable(it.Unicode); rt != nil && unicode.Is(rt, r) {
-				in = true
+			rt := unicodeTable(it.Unicode)
+			if rt == nil {
+				continue
 			}
-			if c.IgnoreCase && !in {
-				if rt := unicodeTable(it.Unicode); rt != nil && unicode.Is(rt, unicode.ToLower(r)) {
+			switch {
+			case !c.IgnoreCase:
+				if unicode.Is(rt, r) {
+					in = true
+				}
+			case lowerOnly:
+				if unicode.Is(rt, unicode.ToLower(r)) {
+					in = true
+				}
+			default:
+				// member iff some rune with the same case folding is in the class
+				if unicode.Is(rt, r) || unicode.Is(rt, unicode.ToLower(r)) || unicode.Is(rt, unicode.ToUpper(r)) || unicode.Is(rt, unicode.ToTitle(r)) {
 					in = true
 				}
 			}
@@ -443,12 +497,27 @@ func (ip *Interp) eval(e *Expr, pos int, env map[string]any) (ok bool, end int, 
 	if ip.evals > ip.O.MaxEval {
 		panic(&refPanic{kind: "budget"})
 	}
+	useMemo := ip.O.Quirks[QMemo] || ip.O.Quirks[QMemoRebind]
+	if useMemo {
+		if ip.memo == nil {
+			ip.memo = map[memoKey]memoVal{}
+		}
+		if m, ok := ip.memo[memoKey{e, pos}]; ok {
+			if m.ok && e.K == KLabel && ip.O.Quirks[QMemoRebind] {
+				env[e.Name] = m.val
+			}
+			return m.ok, m.end, m.val
+		}
+	}
 	saved := ip.st
 	ok, end, val = ip.evalInner(e, pos, env)
 	if !ok {
 		// a failing expression leaves the state store as it found it
 		ip.st = saved
 		end = pos
+	}
+	if useMemo {
+		ip.memo[memoKey{e, pos}] = memoVal{ok, end, val}
 	}
 	return ok, end, val
 }
@@ -460,6 +529,9 @@ func (ip *Interp) evalInner(e *Expr, pos int, env map[string]any) (bool, int, an
 		p := pos
 		for _, want := range e.Val {
 			r, w, _ := Decode(in[p:])
+			if w == 0 && want == 0xFFFD && ip.O.Quirks[QLitFFFDEOF] {
+				continue
+			}
 			if w == 0 {
 				ip.record(false, pos, LitWant(e))
 				return false, pos, nil
@@ -480,7 +552,7 @@ func (ip *Interp) evalInner(e *Expr, pos int, env map[string]any) (bool, int, an
 		return true, p, in[pos:p]
 	case KClass:
 		r, w, _ := Decode(in[pos:])
-		if w == 0 || !ClassMatch(e.Class, r) {
+		if w == 0 || !classMatch(e.Class, r, ip.O.Quirks[QClassUnicodeLower]) {
 			ip.record(false, pos, ClassSrc(e))
 			return false, pos, nil
 		}
